@@ -66,6 +66,7 @@ Section HashModel.
   Variable upd_bound : B -> Z -> B.  (* Bucket::UpdateMaxProbe(probe) *)
   Variable h : Z -> Z.               (* the hash function: arbitrary *)
   Variable cap : Z.                  (* Bucket::maxCount *)
+  Variable unlimited : bool.         (* BucketUnlimP: IsFull() is constantly false *)
   Variable wf0 : bool.               (* Bucket::WasFull() of a cleared bucket *)
   Variable wfThr : Z.                (* WasFull() becomes (and stays) true once the bucket has held wfThr items (<= cap) *)
   Variable start : Z -> Z -> Z.      (* GetStartBucketIndex hashCode bucketCount *)
@@ -78,7 +79,7 @@ Section HashModel.
   Record bucket : Type := mkB { items : list item; wasFull : bool; bound : B }.
   Definition emptyB : bucket := mkB [] wf0 b0.
   Definition blen (b : bucket) : Z := Z.of_nat (length (items b)).
-  Definition isFull (b : bucket) : bool := cap <=? blen b.
+  Definition isFull (b : bucket) : bool := if unlimited then false else cap <=? blen b.
 
   Record table : Type := mkT { tlog : Z; tbs : list bucket }.
   Definition bcount (t : table) : Z := 2 ^ tlog t.
